@@ -74,7 +74,7 @@ func (w *World) expectedGames(role string, class int, l *Ledger) map[string]game
 func (w *World) CheckGames() []string {
 	var d []string
 	l := w.Ledger()
-	for _, role := range w.Roles() {
+	for _, role := range w.ReadyRoles() {
 		if _, err := w.I.W.UseWallet(w.Wallets[role].ID); err != nil {
 			d = append(d, role+": UseWallet: "+err.Error())
 			continue
